@@ -164,7 +164,10 @@ func init() {
 		for _, q := range []string{`sum by (l) (a + b)`, `abs(a + b)`, `sum by (l) (-a)`, `sum by (l) ((a))`, `sum by (l) (abs(a))`, `sum without (m) (rate(a[1m]))`,
 			`sum by (l) (rate(a[1m] offset 30s))`, `max by (l) (a @ start())`, `max by (l) (a @ end() offset 1m)`, `sum by (l) (a @ 45.000 + b)`,
 			`topk by (l) (1, a)`, `quantile by (l) (0.5, -a)`, `sum by (l) (clamp_min(a, scalar(b)))`, `sum(sum by (l) (a))`, `-sum by (l) (a)`, `(sum by (l) (a)) + (max by (m) (b))`,
-			`sum by (l) (a offset -30s)`, `rate(a[90s] @ 100.000 offset 30s)`, `sum by (l) (last_over_time(a[1m]))`} {
+			`sum by (l) (a offset -30s)`, `rate(a[90s] @ 100.000 offset 30s)`, `sum by (l) (last_over_time(a[1m]))`,
+			// unary plus and parentheses between an aggregation and its selector
+			`sum by (l) (+a)`, `sum(+a)`, `max without (m) (+a)`, `quantile by (l) (0.5, +a)`, `abs(+a)`, `+(a)`, `sum by (l) (+(a))`, `sum by (l) (+sum by (l, m) (a))`,
+			`topk by (l) (1, +a)`, `sum by (l) (+rate(a[1m]))`, `sum by (l) (-(+a))`, `count without (l) (+a offset 30s)`} {
 			if cq := gen.Canon(q); cq != "" && !f.Has(cq) && !k.Has(cq) {
 				qs = append(qs, cq)
 			}
@@ -418,6 +421,60 @@ func init() {
 							c.Rep.Outcomes["diff:"+sym]++
 							cp := *cs
 							c.Fail(check.Failure{Prop: "C10", Kind: "enum", Sub: "C10", Symptom: sym, Detail: det, Case: &cp})
+						}
+					}
+				}
+			}
+		}
+		// remote parts that the remote engines hand to their fallback (fallback enabled on the
+		// coordinator and on the remotes): the remote result is then a Prometheus result
+		for _, variant := range []string{"regular", "stale"} {
+			for n := 2; n <= 3; n++ {
+				data := c10Data(variant, n)
+				for k := 1; k <= 3; k++ {
+					total := 1
+					for i := 0; i < n; i++ {
+						total *= k
+					}
+					for code := 0; code < total; code++ {
+						dist := make([]int, len(data))
+						x := code
+						for i := 0; i < n; i++ {
+							dist[i] = x % k
+							x /= k
+						}
+						for _, q := range []string{`round(a)`, `sum by (l) (round(a))`, `count by (l) (sgn(a))`, `max(round(a))`, `topk by (l) (1, round(a))`, `sort(a)`, `sum(a or b)`,
+							`max by (l) (a[1m:30s] offset 30s != 0 or a)`, `sum by (l) (a) + on (l) group_left round(b)`, `round(sum by (l) (a))`, `sum by (l) (label_replace(a, "x", "$1", "l", "(.*)"))`} {
+							for _, w := range ws {
+								c.Rep.Transitions++
+								if !c.Mine() {
+									continue
+								}
+								if c.Expired() {
+									return
+								}
+								cs := &core.Case{Q: q, Data: data, W: w, O: core.Opts{Optimizers: "none", Fallback: true}, Dist: dist, NDist: k, Note: variant + " fallback"}
+								if !c.Progress(cs) {
+									continue
+								}
+								ran, nt, sym, det := c10Once(cs)
+								if !ran {
+									continue
+								}
+								c.Rep.States++
+								c.Rep.Evaluations += 2
+								c.Rep.Traces += 2
+								if nt {
+									c.Rep.Nontrivial++
+								}
+								if sym == "" {
+									c.Rep.Outcomes["agree"]++
+									continue
+								}
+								c.Rep.Outcomes["diff:"+sym]++
+								cp := *cs
+								c.Fail(check.Failure{Prop: "C10", Kind: "enum", Sub: "C10", Symptom: sym, Detail: det, Case: &cp})
+							}
 						}
 					}
 				}
